@@ -1,0 +1,33 @@
+//go:build verif
+
+// Package verif holds the instrumentation points used by the external verification
+// harness. With the "verif" build tag off, Point is an empty function.
+package verif
+
+import "sync/atomic"
+
+// Enabled reports whether the instrumentation is compiled in.
+const Enabled = true
+
+type handlerFunc func(name string, args ...any)
+
+var handler atomic.Pointer[handlerFunc]
+
+// SetHandler installs (or, with nil, removes) the process-wide handler that is called
+// at every Point. The handler may block: it is used both to record events at
+// linearization points and to park goroutines at scheduler gates / failpoints.
+func SetHandler(h func(name string, args ...any)) {
+	if h == nil {
+		handler.Store(nil)
+		return
+	}
+	hf := handlerFunc(h)
+	handler.Store(&hf)
+}
+
+// Point is an instrumentation point.
+func Point(name string, args ...any) {
+	if h := handler.Load(); h != nil {
+		(*h)(name, args...)
+	}
+}
